@@ -215,7 +215,7 @@ pub fn c11(a: &Args) {
             }
         };
         // other values / other text content (including whitespace-only text)
-        for salt in [1usize, 2, 3, 4] {
+        for salt in [1usize, 2, 3, 4, 6 + ci % 21, 6 + (ci * 7 + 3) % 21] {
             let nd: Vec<(Vec<u8>, ReaderCfg)> = calls.iter().map(|e| { let d = serialize_salted(e, 0, salt); (d.bytes, d.cfg) }).collect();
             check(format!("other values (salt {})", salt), nd, Feed::Whole, &mut mismatches);
         }
